@@ -303,7 +303,7 @@ Proof. vm_compute. repeat split; reflexivity. Qed.
    coq/TrDrawBase.v does (kernel_ok: term_rows / term_cols / conf_hlline answer h / cols / hl; term_pos, term_room, led_print, syn_context,
    vi_drawmsg, term_record, term_commit append their record to the log block kl -- led_print after READING the two strings it is handed,
    every cell checked), on every memory that holds the window globals and the buffer (draw_mem). *)
-From NV Require Import CLite CLiteProps GenCFuncs CLiteExt DrawWinDefs DrawWinProps TrDrawBase TrDrawWin TrDrawRow TrDrawEx.
+From NV Require Import CLite CLiteProps GenCFuncs CLiteExt DrawWinDefs DrawWinProps TrDrawBase TrDrawWin TrDrawRow TrDrawEx TrDrawFix.
 Local Open Scope Z_scope.
 
 (* vi_wfix(): xrow and xtop afterwards are DrawDefs.wfix of the values before, for ALL xrow / xtop / xrows / buffer lengths (so, by
@@ -419,4 +419,23 @@ Example C19_tr_draw_runs :
   option_map fst (match callx (term_kernel ex_kl 2 80 7) cprog 50 10 F_vi_scrollbackward [VInt 1] (ex_mem 0 0 0) with Ok (r, m) => Some (r, m) | _ => None end) = Some (VInt 1) /\
   scroll_fwd 3 0 0 5 = (0, 2, 2) /\ wfix 0 2 2 3 = (1, 2).
 Proof. split; [exact (ex_draw_mem 1 1 1)|]. vm_compute. repeat split; reflexivity. Qed.
+(* vi_drawfix(r1, r2, n, 0) (every call site but the preview of vi_change): term_record, term_pos(r1' - xtop, 0), term_room(r1' - r2' - 1 + n')
+   with the clamped r1' r2' and the reduced n' of DrawDefs.drawfix, the rows below when lines disappeared, the replaced rows, term_commit
+   (fix_evs, coq/TrDrawFix.v).  PARTIAL towards C19_fix_is_repaint: the calls are proved; that their replay equals DrawDefs.drawfix is
+   not proved in Coq yet (the event list is the model's, term for term). *)
+Theorem C19_tr_vi_drawfix_partial : forall ext kl h cols hl v bl bln lbs lines ft d fuel m lg r1 r2 n,
+  kernel_ok ext kl h cols hl -> v_ok v -> draw_mem m kl v bl bln lbs lines ft -> 1 <= h -> 0 <= v_xtop v -> v_xtop v + h <= 2147483647 ->
+  log_at m kl lg -> (Z.to_nat h < fuel)%nat ->
+  i32b r1 -> i32b r2 -> 0 <= n -> i32b (r2 - r1) -> i32b (r2 - r1 + 1) -> i32b (n - (r2 - r1 + 1)) -> i32b (v_xtop v - r1) -> i32b (n - (v_xtop v - r1)) ->
+  v_xtop v + h + n <= 2147483647 ->
+  callx ext cprog fuel (S (S (S (S d)))) F_vi_drawfix [VInt r1; VInt r2; VInt n; VInt 0] m
+  = Ok (VUndef, mlog m kl (lg ++ fix_evs (drawrow_evs lines ft (v_xtop v) (v_xrow v) (v_xleft v) (v_xhll v) (v_xhl v) hl) h (v_xtop v) r1 r2 n)).
+Proof. intros ext kl h cols hl v bl bln lbs lines ft d fuel m lg r1 r2 n Hk Hv Hm Hh Ht Hth. exact (tr_vi_drawfix ext kl h cols hl Hk v bl bln lbs lines ft d fuel Hv m Hm Hh Ht Hth lg r1 r2 n). Qed.
+Print Assumptions C19_tr_vi_drawfix_partial.
+(* it runs: vi_drawfix(1, 1, 0, 0) (one line gone at row 1) on the three-line buffer, window of 2 rows at the top: one line deleted at
+   row 1, then row 1 redrawn from the buffer as it stands (the example memory is not edited: line 1 is still "c") *)
+Example C19_tr_drawfix_runs :
+  retm (callx (term_kernel ex_kl 2 80 7) cprog 50 10 F_vi_drawfix [VInt 1; VInt 1; VInt 0; VInt 0] (ex_mem 0 0 0))
+    = Some (enc_log [TRecord; TPos 1 0; TRoom (-1); TPrint [99; 10]%N 1 0 []; TCtx 0; TCommit]).
+Proof. vm_compute. reflexivity. Qed.
 Local Close Scope Z_scope.
